@@ -43,3 +43,9 @@ package cmd
 //@   ensures C18.parses: !flagOn("sample-benchmarks") && !flagOn("benchmark") && !flagOn("webserver") ==> parsed == 1      // a run on a file always parses it (all other exits are fatal)
 //@   ensures C18.checked: parsed == 1 && typecheckWanted() ==> tchecked == 1
 //@   safety C18
+
+// ---------------------------------------------------------------------------------------------
+// C19: runs are isolated. The module keeps no state between runs: every package-level variable is written by package
+// initialisers only (one frame obligation per variable, module-wide), so whatever a run reads from package level is the
+// same for every run, and everything else a run touches is reached from its own arguments or allocated by it.
+//@ globalframe C19
